@@ -12,6 +12,7 @@ import (
 var utilsFnv = utils.Fnv1a
 
 func os_Open(p string) (*os.File, error) { return os.Open(p) }
+func os_Stat(p string) (os.FileInfo, error) { return os.Stat(p) }
 
 func writeFileBytes(path string, b []byte) error {
 	f, err := os.Create(path)
